@@ -49,6 +49,8 @@ Definition had_fragments (nfrags frame_payload_len : N) : bool := negb (nfrags =
 Definition cont_not_started (opcode msg_opcode : N) : bool := ((opcode =? 0) && (msg_opcode =? 16)).
 Definition inflated_too_big (max_msg_size len : N) : bool := ((negb (max_msg_size =? 0)) && (max_msg_size <? len)).
 Definition close_code_bad (code : N) : bool := ((4999 <? code) || ((code <? 3000) && (negb (ws_mem code ALLOWED_CLOSE_CODES)))).
+(* a TEXT/BINARY frame while a fragmented message is open (RFC 6455 5.4); tested before anything is buffered *)
+Definition data_in_message (opcode msg_opcode : N) : bool := ((negb (opcode =? 0)) && (negb (msg_opcode =? 16))).
 Definition inflate_cap (max_msg_size : N) : N := if max_msg_size =? 0 then max_msg_size else (max_msg_size + 1).
 
 (* WebSocketDataQueue shapes checked: FIFO append/popleft; _read_from_buffer hands out buffered messages before the stored exception *)
